@@ -120,6 +120,8 @@ def random_case(rng, name, kind, nkeys, nops):
         keys = [_hex(w) for w in rng.sample(pool, min(nkeys, len(pool)))]
     else:
         keys = [str(k) for k in rng.sample(range(256), min(nkeys, 256))]
+    if rng.random() < 0.3:
+        lines.append("probe 1")     # cleanups look themselves up during set_remove too (h_set.c)
     live = set()      # for ptr: avoid re-inserting a live node (assert in set.c) and disposal
     uid = 0
     for _ in range(nops):
